@@ -8,14 +8,6 @@ flow, except Jump itself (`namesGuard`, true of everything `resolve` yields).
 namespace ESV.Decomp
 open ESV.Beh
 
-def itemNameOk : Item → Bool
-  | .op o => !isJump o.name
-  | .ljump r _ _ => isJump r.name || !ESV.Spec.opsEndFlow.contains r.name
-  | .label _ => true
-
-/-- a plain op is not called Jump (a Jump always carries its target, the resolver turns it into a label
-jump); the root of a label jump is Jump or an op that does not end the flow (Branch*, Case*, Call) -/
-def namesGuard (items : List Item) : Bool := items.all itemNameOk
 
 theorem namesGuard_at (items : List Item) (h : namesGuard items = true) (i : Nat) (it : Item)
     (hi : items[i]? = some it) : itemNameOk it = true := by
